@@ -898,6 +898,8 @@ def rule_G(ctx):
             return e[1]
         if k == 'fun':
             return '%s{%s}' % (e[1], render(e[2]))
+        if k == 'par':
+            return '(%s)' % render(e[1])            # parentheses the grammar does not require
         if k == 'neg':
             s_ = '-' + render(e[1], ('neg',), False)
             return '(%s)' % s_ if parent is not None else s_
@@ -928,6 +930,8 @@ def rule_G(ctx):
         if k == 'neg':
             v = value(e[1], env)
             return [0.0 - x for x in v] if isinstance(v, list) else 0.0 - v
+        if k == 'par':
+            return value(e[1], env)
         if k == 'fun':
             v = value(e[2], env)
             v = v if isinstance(v, list) else [v] * N
@@ -1139,6 +1143,19 @@ def rule_G(ctx):
     for e in (('neg', A), ('bin', '+', ('neg', A), B), ('bin', '*', B, ('neg', A)), ('bin', '-', B, ('neg', two)), ('neg', ('bin', '+', A, B)), ('bin', '^', ('neg', RATE), two),
               ('bin', '+', ('neg', RATE), A), ('neg', ('fun', 'ABS', A))):
         run('unary minus', e)
+    # F4b parenthesised groups that begin AND end with a parenthesised sub-group, wrapped once more, as a function argument, as an operand
+    one, ten = ('num', 1), ('num', 10)
+    for o1, o2, o3 in (('+', '*', '-'), ('+', '-', '-'), ('-', '/', '+'), ('*', '+', '*')):
+        inner = ('bin', o2, ('par', ('bin', o1, A, B)), ('par', ('bin', o3, A, B)))
+        run('wrapped groups', ('par', inner))
+        run('wrapped groups', ('par', ('par', inner)))
+        run('wrapped groups', ('fun', 'ABS', inner))
+        run('wrapped groups', ('bin', '*', two, ('par', inner)))
+        run('wrapped groups', ('bin', '/', ('par', inner), two))
+        run('wrapped groups', ('bin', '/', ('par', inner), two), 'u')
+    run('wrapped groups', ('par', ('par', ('bin', '+', A, B))))
+    run('wrapped groups', ('bin', '*', two, ('par', ('bin', '-', ('par', ('bin', '+', A, one)), ('par', ('bin', '+', B, ten))))))
+    run('wrapped groups', ('fun', 'SQRT', ('bin', '+', ('bin', '^', ('par', ('bin', '-', RATE, one)), two), ('bin', '^', ('par', ('bin', '-', B, two)), two))))
     # F5 names that end in e / E, tiny denominators, virtual features
     for e in (('bin', '-', RATE, A), ('bin', '+', RATE, two), ('bin', '-', E_, RATE), ('bin', '+', ('neg', RATE), A), ('bin', '-', E_, two), ('bin', '*', RATE, E_)):
         run('names', e)
